@@ -109,9 +109,11 @@ type LockAnalysis struct {
 }
 
 type lockAnalyzer struct {
-	c      *Ctx
-	pkg    *packages.Package
-	tokens map[*types.Var]bool // channel fields used as locks
+	c           *Ctx
+	pkg         *packages.Package
+	tokens      map[*types.Var]bool // channel fields used as locks
+	summaries   map[*types.Func]*lockSummary
+	summarizing int
 }
 
 func (la *lockAnalyzer) exprKey(e ast.Expr) string {
@@ -187,6 +189,8 @@ func (la *lockAnalyzer) events(n ast.Node) []lockEvent {
 		case *ast.CallExpr:
 			if ev, ok := la.mutexCall(m); ok {
 				evs = append(evs, ev)
+			} else if w := la.wrapperEvents(m); len(w) > 0 {
+				evs = append(evs, w...)
 			}
 		case *ast.SendStmt:
 			if la.isToken(m.Chan) {
@@ -361,8 +365,15 @@ func (la *lockAnalyzer) analyze(name string, body *ast.BlockStmt, deferredLit, g
 			continue
 		}
 		out := transfer(b, in[i], false)
-		for _, s := range b.Succs {
-			if in[s.Index].merge(out) && !inWork[s.Index] {
+		for si, s := range b.Succs {
+			o := out
+			if evs := la.edgeEvents(b, si); len(evs) > 0 {
+				o = out.clone()
+				for _, ev := range evs {
+					apply(&o, ev, false)
+				}
+			}
+			if in[s.Index].merge(o) && !inWork[s.Index] {
 				work = append(work, s.Index)
 				inWork[s.Index] = true
 			}
@@ -376,6 +387,13 @@ func (la *lockAnalyzer) analyze(name string, body *ast.BlockStmt, deferredLit, g
 		}
 		nAcq := len(res.Acquires)
 		out := transfer(b, in[b.Index], true)
+		for si := range b.Succs {
+			for _, ev := range la.edgeEvents(b, si) {
+				if ev.acquire {
+					res.Acquires = append(res.Acquires, ev)
+				}
+			}
+		}
 		// de-duplicate acquires recorded in the final pass
 		kept := res.Acquires[:nAcq]
 		for _, a := range res.Acquires[nAcq:] {
@@ -417,6 +435,23 @@ func (la *lockAnalyzer) analyze(name string, body *ast.BlockStmt, deferredLit, g
 		}
 	}
 	return res
+}
+
+// edgeEvents: lock events that happen on the si-th outgoing edge of a block
+// ending in a branch on a conditional wrapper's result.
+func (la *lockAnalyzer) edgeEvents(b *cfg.Block, si int) []lockEvent {
+	if len(b.Succs) != 2 || len(b.Nodes) == 0 {
+		return nil
+	}
+	cond, ok := b.Nodes[len(b.Nodes)-1].(ast.Expr)
+	if !ok {
+		return nil
+	}
+	t, f := la.condEvents(cond)
+	if si == 0 {
+		return t
+	}
+	return f
 }
 
 // analyzeFunc analyses a declared function and every literal nested in it.
@@ -504,6 +539,7 @@ func (c *Ctx) LockPairing(rule, rel string, tokens []string) map[string][]*LockA
 			continue
 		}
 		as := all[fn.Name]
+		wl := la.wrapperLocks(fn.Obj)
 		for _, a := range as {
 			leaks := map[token.Pos][]LockFinding{}
 			for _, f := range a.Findings {
@@ -516,6 +552,10 @@ func (c *Ctx) LockPairing(rule, rel string, tokens []string) map[string][]*LockA
 				if strings.HasPrefix(acq.lock, "R:") {
 					key += " (read)"
 				}
+				if wl[acq.lock] {
+					c.OK(rule, key, acq.pos, "lock wrapper: every exit has the same effect on the lock; the pairing is checked at each call of the wrapper")
+					continue
+				}
 				if fs := leaks[acq.pos]; len(fs) > 0 {
 					var path []string
 					for _, f := range fs {
@@ -527,7 +567,7 @@ func (c *Ctx) LockPairing(rule, rel string, tokens []string) map[string][]*LockA
 				}
 			}
 			for _, f := range a.Findings {
-				if f.Kind == "unpaired-release" {
+				if f.Kind == "unpaired-release" && !wl[f.Lock] {
 					c.Bad(rule, a.Name+" › release "+f.Lock, f.Acq, "release of a lock that is not held on any path reaching this point")
 				}
 			}
@@ -835,4 +875,370 @@ func heldSuffix(h map[string]bool, key string) bool {
 		}
 	}
 	return false
+}
+
+// ---- lock wrappers -----------------------------------------------------------------------------------------------------
+//
+// A small same-package function whose every exit has the same net effect on
+// a lock of its receiver ("lockWrite", "unlockWrite") is a wrapper: a call of
+// it is the lock event, and its own body is not charged with the imbalance.
+// A wrapper with a boolean result may hold the lock exactly when it returns
+// one of the two truth values ("lockWrite(ctx) bool"): then the event happens
+// on the corresponding edge of a branch on the call.
+
+type lockSummary struct {
+	recv    string      // receiver (or "" for a function) identifier the keys are relative to
+	acq     []string    // keys acquired on every exit
+	rel     []string    // keys released (not acquired by itself) on every exit
+	condAcq []string    // keys held exactly when the boolean result equals condVal
+	condVal bool
+	pos     map[string]token.Pos
+}
+
+func (s *lockSummary) empty() bool { return s == nil || len(s.acq)+len(s.rel)+len(s.condAcq) == 0 }
+
+func (la *lockAnalyzer) calleeOf(call *ast.CallExpr) (*types.Func, ast.Expr) {
+	switch f := ast.Unparen(call.Fun).(type) {
+	case *ast.SelectorExpr:
+		if obj, ok := la.pkg.TypesInfo.ObjectOf(f.Sel).(*types.Func); ok {
+			if s := la.pkg.TypesInfo.Selections[f]; s != nil {
+				return obj, f.X
+			}
+			return obj, nil
+		}
+	case *ast.Ident:
+		if obj, ok := la.pkg.TypesInfo.ObjectOf(f).(*types.Func); ok {
+			return obj, nil
+		}
+	}
+	return nil, nil
+}
+
+// summaryOf computes (once) the wrapper summary of a same-package function.
+func (la *lockAnalyzer) summaryOf(obj *types.Func) *lockSummary {
+	if obj == nil || obj.Pkg() != la.pkg.Types || obj.Exported() {
+		return nil
+	}
+	if la.summaries == nil {
+		la.summaries = map[*types.Func]*lockSummary{}
+	}
+	if s, ok := la.summaries[obj]; ok {
+		return s
+	}
+	la.summaries[obj] = nil // recursion guard
+	fd := la.c.declIndex[obj]
+	if fd == nil || fd.Body == nil || len(fd.Body.List) > 12 {
+		return nil
+	}
+	sum := &lockSummary{pos: map[string]token.Pos{}}
+	if fd.Recv != nil && len(fd.Recv.List) == 1 && len(fd.Recv.List[0].Names) == 1 {
+		sum.recv = fd.Recv.List[0].Names[0].Name
+	}
+	// no literals, go or defer inside a wrapper
+	simple := true
+	ast.Inspect(fd.Body, func(n ast.Node) bool {
+		switch n.(type) {
+		case *ast.FuncLit, *ast.GoStmt, *ast.DeferStmt:
+			simple = false
+		}
+		return simple
+	})
+	if !simple {
+		return nil
+	}
+	la.summarizing++
+	a := la.analyzeExits(fd.Body)
+	la.summarizing--
+	if a == nil || len(a) == 0 {
+		return nil
+	}
+	boolRes := false
+	if sig := obj.Type().(*types.Signature); sig.Results().Len() == 1 {
+		if b, ok := sig.Results().At(0).Type().Underlying().(*types.Basic); ok && b.Kind() == types.Bool {
+			boolRes = true
+		}
+	}
+	same := func(xs []exitState, pick func(exitState) map[string]token.Pos) (map[string]token.Pos, bool) {
+		if len(xs) == 0 {
+			return nil, true
+		}
+		first := pick(xs[0])
+		for _, x := range xs[1:] {
+			o := pick(x)
+			if len(o) != len(first) {
+				return nil, false
+			}
+			for k := range first {
+				if _, ok := o[k]; !ok {
+					return nil, false
+				}
+			}
+		}
+		return first, true
+	}
+	acqOf := func(e exitState) map[string]token.Pos { return e.acq }
+	relOf := func(e exitState) map[string]token.Pos { return e.rel }
+	if acq, ok1 := same(a, acqOf); ok1 {
+		if rel, ok2 := same(a, relOf); ok2 {
+			for k, p := range acq {
+				sum.acq = append(sum.acq, k)
+				sum.pos[k] = p
+			}
+			for k, p := range rel {
+				sum.rel = append(sum.rel, k)
+				sum.pos[k] = p
+			}
+		}
+	}
+	if sum.empty() && boolRes {
+		var ts, fs []exitState
+		okLit := true
+		for _, e := range a {
+			switch e.result {
+			case "true":
+				ts = append(ts, e)
+			case "false":
+				fs = append(fs, e)
+			default:
+				okLit = false
+			}
+		}
+		if okLit && len(ts) > 0 && len(fs) > 0 {
+			ta, ok1 := same(ts, acqOf)
+			fa, ok2 := same(fs, acqOf)
+			tr, ok3 := same(ts, relOf)
+			fr, ok4 := same(fs, relOf)
+			if ok1 && ok2 && ok3 && ok4 && len(tr) == 0 && len(fr) == 0 {
+				switch {
+				case len(ta) > 0 && len(fa) == 0:
+					sum.condVal = true
+					for k, p := range ta {
+						sum.condAcq = append(sum.condAcq, k)
+						sum.pos[k] = p
+					}
+				case len(fa) > 0 && len(ta) == 0:
+					sum.condVal = false
+					for k, p := range fa {
+						sum.condAcq = append(sum.condAcq, k)
+						sum.pos[k] = p
+					}
+				}
+			}
+		}
+	}
+	sort.Strings(sum.acq)
+	sort.Strings(sum.rel)
+	sort.Strings(sum.condAcq)
+	if sum.empty() {
+		return nil
+	}
+	la.summaries[obj] = sum
+	return sum
+}
+
+type exitState struct {
+	acq    map[string]token.Pos // held at this exit, acquired inside
+	rel    map[string]token.Pos // released inside without having been acquired inside
+	result string               // "true"/"false" for a literal boolean result, "" otherwise
+}
+
+// analyzeExits runs the lock dataflow on a wrapper candidate and returns the
+// net effect at each of its exits.
+func (la *lockAnalyzer) analyzeExits(body *ast.BlockStmt) []exitState {
+	g := cfg.New(body, la.mayReturn)
+	type st struct {
+		acq, rel map[string]token.Pos
+		reached  bool
+	}
+	clone := func(s st) st {
+		n := st{acq: map[string]token.Pos{}, rel: map[string]token.Pos{}, reached: s.reached}
+		for k, v := range s.acq {
+			n.acq[k] = v
+		}
+		for k, v := range s.rel {
+			n.rel[k] = v
+		}
+		return n
+	}
+	in := make([]st, len(g.Blocks))
+	for i := range in {
+		in[i] = st{acq: map[string]token.Pos{}, rel: map[string]token.Pos{}}
+	}
+	in[0].reached = true
+	commStmt := map[ast.Node]bool{}
+	ast.Inspect(body, func(m ast.Node) bool {
+		if cc, ok := m.(*ast.CommClause); ok && cc.Comm != nil {
+			commStmt[cc.Comm] = true
+		}
+		return true
+	})
+	apply := func(s *st, ev lockEvent) {
+		if ev.acquire {
+			s.acq[ev.lock] = ev.pos
+		} else if _, ok := s.acq[ev.lock]; ok {
+			delete(s.acq, ev.lock)
+		} else {
+			s.rel[ev.lock] = ev.pos
+		}
+	}
+	transfer := func(b *cfg.Block, s st) st {
+		s = clone(s)
+		if cc, ok := b.Stmt.(*ast.CommClause); ok && b.Kind == cfg.KindSelectCaseBody && cc.Comm != nil {
+			for _, ev := range la.events(cc.Comm) {
+				apply(&s, ev)
+			}
+		}
+		for _, n := range b.Nodes {
+			if commStmt[n] {
+				continue
+			}
+			for _, ev := range la.events(n) {
+				apply(&s, ev)
+			}
+		}
+		return s
+	}
+	// a wrapper has no loops that matter: iterate to a (may) fixpoint with a bound
+	for iter := 0; iter < 4*len(g.Blocks)+4; iter++ {
+		changed := false
+		for _, b := range g.Blocks {
+			if !in[b.Index].reached {
+				continue
+			}
+			out := transfer(b, in[b.Index])
+			for _, s := range b.Succs {
+				t := &in[s.Index]
+				if !t.reached {
+					*t = clone(out)
+					t.reached = true
+					changed = true
+					continue
+				}
+				// paths disagree: not a wrapper
+				if len(t.acq) != len(out.acq) || len(t.rel) != len(out.rel) {
+					return nil
+				}
+				for k := range out.acq {
+					if _, ok := t.acq[k]; !ok {
+						return nil
+					}
+				}
+				for k := range out.rel {
+					if _, ok := t.rel[k]; !ok {
+						return nil
+					}
+				}
+			}
+		}
+		if !changed {
+			break
+		}
+	}
+	var exits []exitState
+	for _, b := range g.Blocks {
+		if !in[b.Index].reached || len(b.Succs) > 0 || b.Kind == cfg.KindSelectAfterCase {
+			continue
+		}
+		out := transfer(b, in[b.Index])
+		e := exitState{acq: out.acq, rel: out.rel}
+		if len(b.Nodes) > 0 {
+			if r, ok := b.Nodes[len(b.Nodes)-1].(*ast.ReturnStmt); ok && len(r.Results) == 1 {
+				if id, ok := ast.Unparen(r.Results[0]).(*ast.Ident); ok && (id.Name == "true" || id.Name == "false") {
+					e.result = id.Name
+				}
+			}
+			if es, ok := b.Nodes[len(b.Nodes)-1].(*ast.ExprStmt); ok {
+				if call, ok := es.X.(*ast.CallExpr); ok && !la.mayReturn(call) {
+					continue
+				}
+			}
+		}
+		exits = append(exits, e)
+	}
+	return exits
+}
+
+// rekey expresses a wrapper's key in the caller's terms.
+func (la *lockAnalyzer) rekey(key string, sum *lockSummary, recvExpr ast.Expr) (string, bool) {
+	read := strings.HasPrefix(key, "R:")
+	k := strings.TrimPrefix(key, "R:")
+	if sum.recv == "" || recvExpr == nil {
+		return "", false
+	}
+	if k != sum.recv && !strings.HasPrefix(k, sum.recv+".") {
+		return "", false
+	}
+	k = la.exprKey(recvExpr) + strings.TrimPrefix(k, sum.recv)
+	if read {
+		k = "R:" + k
+	}
+	return k, true
+}
+
+// wrapperEvents: the lock events a call of a wrapper amounts to.
+func (la *lockAnalyzer) wrapperEvents(call *ast.CallExpr) []lockEvent {
+	obj, recv := la.calleeOf(call)
+	sum := la.summaryOf(obj)
+	if sum == nil {
+		return nil
+	}
+	var evs []lockEvent
+	for _, k := range sum.rel {
+		if ck, ok := la.rekey(k, sum, recv); ok {
+			evs = append(evs, lockEvent{false, ck, call.Pos()})
+		}
+	}
+	for _, k := range sum.acq {
+		if ck, ok := la.rekey(k, sum, recv); ok {
+			evs = append(evs, lockEvent{true, ck, call.Pos()})
+		}
+	}
+	return evs
+}
+
+// condEvents: for a branch condition that is a (negated) call of a
+// conditional wrapper, the events on the true and on the false edge.
+func (la *lockAnalyzer) condEvents(cond ast.Expr) (onTrue, onFalse []lockEvent) {
+	neg := false
+	e := ast.Unparen(cond)
+	for {
+		if u, ok := e.(*ast.UnaryExpr); ok && u.Op == token.NOT {
+			neg = !neg
+			e = ast.Unparen(u.X)
+			continue
+		}
+		break
+	}
+	call, ok := e.(*ast.CallExpr)
+	if !ok {
+		return nil, nil
+	}
+	obj, recv := la.calleeOf(call)
+	sum := la.summaryOf(obj)
+	if sum == nil || len(sum.condAcq) == 0 {
+		return nil, nil
+	}
+	var evs []lockEvent
+	for _, k := range sum.condAcq {
+		if ck, ok := la.rekey(k, sum, recv); ok {
+			evs = append(evs, lockEvent{true, ck, call.Pos()})
+		}
+	}
+	if sum.condVal != neg { // call result true ⇔ cond true (when not negated)
+		return evs, nil
+	}
+	return nil, evs
+}
+
+// isWrapperBody reports the locks a function's own imbalance is accounted to its callers for.
+func (la *lockAnalyzer) wrapperLocks(obj *types.Func) map[string]bool {
+	sum := la.summaryOf(obj)
+	if sum == nil {
+		return nil
+	}
+	out := map[string]bool{}
+	for _, k := range append(append(append([]string{}, sum.acq...), sum.rel...), sum.condAcq...) {
+		out[k] = true
+	}
+	return out
 }
